@@ -583,7 +583,7 @@ def run(ctx):
         ctx.case(case)
         run_case(ctx, case)
     ctx.note("directed refinement histories: %d refinements added grid points, %d earlier classes changed through refinement" % (STATS["refined"], STATS["reclassified"]))
-    n = 100 if ctx.quick() else 4000
+    n = 100 if ctx.quick() else 3000
     for k in range(n):
         if ctx.out_of_time(0.8):
             ctx.note("stopped after %d random cases (time)" % k)
